@@ -429,8 +429,10 @@ def jobs(tier):
             # every preference alone and all pairs (quick and thorough)
             out.append(('harness.c06', 'run_carrier', dict(cindex=i, max_nondefault=2)))
             if tier != 'quick':
+                # every assignment in which at most three preferences leave their default, split 16 ways
+                # (the full product of the kitchen-sink carrier does not finish within the per-job limit: measured)
                 for k in range(16):
-                    out.append(('harness.c06', 'run_carrier', dict(cindex=i, split=k)))
+                    out.append(('harness.c06', 'run_carrier', dict(cindex=i, split=k, max_nondefault=3)))
         else:
             out.append(('harness.c06', 'run_carrier', dict(cindex=i)))
         out.append(('harness.c06', 'run_carrier', dict(cindex=i, minified=True)))
@@ -447,7 +449,7 @@ def main(tier):
     rep.handle_counterexamples(cases)
     rep.bounds = {'carriers': '%d carrier sheets (harness/c06.py CARRIERS); the kitchen-sink carrier is explored over all '
                               'assignments with at most two non-default preferences%s' % (
-                                  6 if tier == 'quick' else len(CARRIERS), '' if tier == 'quick' else ' and, split 16 ways, over all assignments'),
+                                  6 if tier == 'quick' else len(CARRIERS), '' if tier == 'quick' else ' and, split 16 ways, over all assignments with at most three non-default preferences'),
                   'preferences': '%d boolean preferences as solver variables (2^%d assignments), %d string preferences '
                                  'over menus %s; plus the minified preset' % (
                                      len(BOOL_PREFS), len(BOOL_PREFS), len(STR_PREFS),
